@@ -227,6 +227,7 @@ class Path:
         res = ObResult(label, {"unsat": "proved", "sat": "refuted", "unknown": "undecided"}[status], backend, secs,
                        path=tuple(self.decisions[: self.pos]))
         if status == "sat":
+            self.reached = True     # pc ∧ ¬f satisfiable: this program point is reachable (vacuity guard)
             res.model = self._extract(model)
             res.detail = "counter-model"
         if status != "unsat" and self.explorer.keep_smt2:
@@ -253,6 +254,9 @@ class Path:
 
     def cover(self, label):
         """Reachability marker: the path condition here must be satisfiable."""
+        if getattr(self, "reached", False):
+            self.explorer.covers.setdefault(label, []).append(True)
+            return
         status, _, backend, secs = solve(list(self.pc), rlimit=RLIMIT_FEAS, want_model=False, use_cvc5=False)
         self.explorer.covers.setdefault(label, []).append(status != "unsat")
 
